@@ -22,6 +22,7 @@ import (
 	"sort"
 	"strings"
 	"sync"
+	"sync/atomic"
 	"testing"
 	"time"
 
@@ -618,7 +619,7 @@ func c04Judge(r *verifkit.Run, caseIdx int, desc string, p c04Params, ops []veri
 func TestVerifC04QuorumLog(t *testing.T) {
 	r := verifkit.Start(t, "C04", "quorumlog")
 	defer r.Finish()
-	r.SetRule("Each case is one call/return history (24-43 planned calls) on one channel of the real DurableQuorumLog of a 3-node in-process cluster: 1-2 installer goroutines issue Install with strictly higher (term+fence, fence only, term only, epoch), equal, lower and equal-id-different-configuration authorities (28% of new authorities carry a write fence); 1-4 committer goroutines issue Commit with Expected = current maximum, latest planned, random earlier, or not-yet-installed authority; link delay/drop/lost-response faults; 10% of cases close the runtime while calls are in flight. Non-trivial = history with >=1 commit overlapping an install in time, >=1 commit under an authority older than an already accepted install (rejected), and >=1 fence toggle (fenced authority accepted, later a higher unfenced one installed); distinct by abstract shape (actors, close race, bucketed counts).")
+	r.SetRule("Each case is one call/return history (24-43 planned calls) on one channel of the real DurableQuorumLog of a 3-node in-process cluster: 1-2 installer goroutines issue Install with strictly higher (term+fence, fence only, term only, epoch), equal, lower and equal-id-different-configuration authorities (28% of new authorities carry a write fence); 1-4 committer goroutines issue Commit with Expected = current maximum, latest planned, random earlier, or not-yet-installed authority; link delay/drop/lost-response faults; 10% of cases close the runtime while calls are in flight. Second family (cold-key install race): 600 (thorough 4000) fresh channel keys; per key 2-4 gated goroutines issue the first Installs simultaneously with different increasing authorities, then Commit(Expected=A) for every authority used, sequentially and concurrently. Non-trivial = history with >=1 commit overlapping an install in time, >=1 commit under an authority older than an already accepted install (rejected), and >=1 fence toggle (fenced authority accepted, later a higher unfenced one installed); distinct by abstract shape (actors, close race, bucketed counts).")
 	r.Assume("An Install that returns ErrWriteFenced for a fenced authority counts as 'installed under a newer authority' (quorumLog fences the channel to it before returning); Installs that fail with any other error are not used as premises.")
 	r.Assume("All accepted Installs of one authority id carry the same configuration on one runtime, so fencedness of an id is time-independent.")
 	n := r.N(240, 1500)
@@ -638,5 +639,157 @@ func TestVerifC04QuorumLog(t *testing.T) {
 		if !cont {
 			return
 		}
+	}
+	c04ColdKeyFamily(r)
+}
+
+// c04ColdKeyFamily: "cold-key install race". For many FRESH channel keys (never
+// installed in that runtime) 2-4 goroutines released by one gate issue the
+// first Installs of the key simultaneously with different increasing
+// authorities; after all installs returned, Commit(Expected=A) is issued for
+// every authority used, first sequentially, then concurrently. The ordinary
+// happens-before oracle (c04Judge) applies to each key's history; additionally,
+// if the highest authority attempted for the key was installed successfully,
+// a Commit expecting it that starts after all installs returned must not be
+// answered with a stale-meta class (nothing newer can be installed).
+func c04ColdKeyFamily(r *verifkit.Run) {
+	if runtime.GOMAXPROCS(0) < 8 {
+		defer runtime.GOMAXPROCS(runtime.GOMAXPROCS(8))
+	}
+	r.Count("coldkey.gomaxprocs", runtime.GOMAXPROCS(0))
+	keys := r.N(600, 4000)
+	const perCluster = 200
+	var cluster *c04Cluster
+	closeCluster := func() {
+		if cluster == nil {
+			return
+		}
+		cctx, ccancel := context.WithTimeout(context.Background(), 90*time.Second)
+		_ = cluster.nodes[c04LeaderNode].rt.Close(cctx)
+		ccancel()
+		cluster.closeFollowers()
+		cluster = nil
+	}
+	defer closeCluster()
+	for k := 0; k < keys; k++ {
+		caseIdx := 100000 + k
+		if r.Skip(caseIdx) {
+			continue
+		}
+		if cluster == nil || k%perCluster == 0 {
+			closeCluster()
+			var err error
+			cluster, err = c04NewClusterN(&c04Faults{}, perCluster+8)
+			if err != nil {
+				r.Inconclusive("coldkey: cluster construction failed: " + err.Error())
+				return
+			}
+		}
+		rng := r.Rand(0xc01d, uint64(k))
+		n := 2 + rng.IntN(3)
+		desc := fmt.Sprintf("coldkey racers=%d", n)
+		r.BeginCase(caseIdx, desc)
+		log := cluster.nodes[c04LeaderNode].rt.Log()
+		name := fmt.Sprintf("c04k-%d", k)
+		key, chID := ch.ChannelKey("1:"+name), ch.ChannelID{ID: name, Type: 1}
+		rec := verifkit.NewRecorder()
+		ids := make([]replication.AuthorityID, n)
+		for i := range ids {
+			ids[i] = replication.AuthorityID{ChannelEpoch: 1, LeaderTerm: uint64(i + 1), FenceVersion: uint64(i + 1)}
+		}
+		rng.Shuffle(n, func(i, j int) { ids[i], ids[j] = ids[j], ids[i] })
+		var ready, gate atomic.Int32
+		var wg sync.WaitGroup
+		for g := 0; g < n; g++ {
+			wg.Add(1)
+			go func(g int) {
+				defer wg.Done()
+				spec := c04Spec{ID: ids[g]}
+				auth := c04Authority(key, chID, spec)
+				ready.Add(1)
+				for gate.Load() == 0 {
+				}
+				out := rec.Do(g, c04In{Kind: c04KindInstall, Spec: spec}, func() any {
+					inst, err := log.Install(context.Background(), auth)
+					o := c04Out{OK: err == nil, Class: c04Class(err), RcAuth: inst.Authority, LEO: inst.LEO}
+					if err != nil {
+						o.Err = err.Error()
+					}
+					return o
+				}).(c04Out)
+				r.Count("coldkey.install."+out.Class, 1)
+			}(g)
+		}
+		for int(ready.Load()) < n {
+			runtime.Gosched()
+		}
+		gate.Store(1)
+		wg.Wait()
+		cmd := 0
+		commit := func(client int, id replication.AuthorityID, c int) {
+			cmdID := c04CommandID(caseIdx, c)
+			out := rec.Do(client, c04In{Kind: c04KindCommit, Spec: c04Spec{ID: id}, Cmd: c}, func() any {
+				rc, err := log.Commit(context.Background(), replication.Proposal{Key: key, Expected: id, CommandID: cmdID, Records: c04Records(c, id.ChannelEpoch)})
+				o := c04Out{OK: err == nil, Class: c04Class(err), RcAuth: rc.Authority, RcCmdOK: rc.CommandID == cmdID, First: rc.First, Last: rc.Last}
+				if err != nil {
+					o.Err = err.Error()
+				}
+				return o
+			}).(c04Out)
+			r.Count("coldkey.commit."+out.Class, 1)
+		}
+		for _, id := range ids { // sequentially
+			commit(0, id, cmd)
+			cmd++
+		}
+		for g, id := range ids { // concurrently
+			wg.Add(1)
+			go func(g int, id replication.AuthorityID, c int) {
+				defer wg.Done()
+				commit(g, id, c)
+			}(g, id, cmd)
+			cmd++
+		}
+		wg.Wait()
+		ops := rec.Ops()
+		c04Judge(r, caseIdx, desc, c04Params{}, ops)
+		// highest attempted authority installed successfully => it is the
+		// installed authority for good (every other attempt is lower)
+		var installsEnd int64
+		maxOK := false
+		maxID := replication.AuthorityID{ChannelEpoch: 1, LeaderTerm: uint64(n), FenceVersion: uint64(n)}
+		okInstalls := 0
+		for _, op := range ops {
+			in, out := op.Input.(c04In), op.Output.(c04Out)
+			if in.Kind != c04KindInstall {
+				continue
+			}
+			if op.Return > installsEnd {
+				installsEnd = op.Return
+			}
+			if out.OK {
+				okInstalls++
+				if in.Spec.ID == maxID {
+					maxOK = true
+				}
+			}
+		}
+		acked := 0
+		for _, op := range ops {
+			in, out := op.Input.(c04In), op.Output.(c04Out)
+			if in.Kind != c04KindCommit {
+				continue
+			}
+			if out.OK {
+				acked++
+			}
+			if maxOK && in.Spec.ID == maxID && op.Call > installsEnd && out.Class == "stale_meta" {
+				r.Violation("installed-authority-reported-stale", map[string]any{"case": caseIdx, "desc": desc, "commit": op, "history": c04Compact(ops)})
+			}
+		}
+		if maxOK {
+			r.Count("coldkey.keys_with_max_authority_installed", 1)
+		}
+		r.Nontrivial(fmt.Sprintf("coldkey n%d ok%d acked%d max%v", n, okInstalls, acked, maxOK))
 	}
 }
